@@ -65,7 +65,8 @@ def main():
         if not os.path.isdir(repo):
             sh(f"git -C /repo worktree add -q --detach {repo} HEAD")
         sh("git reset -q --hard && git checkout -q --detach main", cwd=repo)
-        vsrc = os.environ.get("SEED_VERIF_SRC", "/verif")  # a frozen copy keeps first verdicts independent of later edits
+        vsrc = os.environ.get("SEED_VERIF_SRC") or "/verif"  # a frozen copy keeps first verdicts independent of later edits
+        assert os.path.isfile(os.path.join(vsrc, "check")), f"{vsrc} is not a copy of /verif"
         sh(f"mkdir -p {verif} && rsync -a --delete --exclude .build --exclude .work --exclude .git --exclude replays --exclude evidence {vsrc}/ {verif}/")
         sh(f"sed -i 's|path = \"/repo\"|path = \"{repo}\"|' {verif}/engine/mc/Cargo.toml")
         envx = {"E57_REPO": repo}
